@@ -186,16 +186,28 @@ def logger_rules(chk):
     test_keys = None
     test_name = None
     mod = cls.module
+    test_is_function = False
+    table_defs = {}
     for nm, node in mod.defs.items():
+        table_defs[nm] = (node, False)
+        if isinstance(node, ast.FunctionDef) and not node.args.args and not node.args.kwonlyargs and not node.args.vararg and not node.args.kwarg:
+            # built on demand:  def _test_fields(): return _WarnMap(value=..., demand=..., ...)
+            rets = [x for x in util.walk_no_nested(node) if isinstance(x, ast.Return)]
+            body = [st for st in node.body if not (isinstance(st, ast.Expr) and isinstance(st.value, ast.Constant))]
+            if len(rets) == 1 and body == rets and rets[0].value is not None:
+                table_defs[nm] = (ast.Assign(targets=[ast.Name(id=nm)], value=rets[0].value), True)
+    for nm, (node, is_fn) in table_defs.items():
+        if test_keys is not None and is_fn:
+            continue
         if isinstance(node, ast.Assign) and isinstance(node.value, ast.Call) and node.value.keywords and not node.value.args:
             kws = [k.arg for k in node.value.keywords]
             if "value" in kws and "demand" in kws:
-                test_keys, test_name = set(kws), nm
+                test_keys, test_name, test_is_function = set(kws), nm, is_fn
         elif isinstance(node, ast.Assign) and (isinstance(node.value, ast.Dict) or (isinstance(node.value, ast.Call) and len(node.value.args) == 1 and not node.value.keywords and isinstance(node.value.args[0], ast.Dict))):
             dnode = node.value if isinstance(node.value, ast.Dict) else node.value.args[0]
             ks = [k.value for k in dnode.keys if isinstance(k, ast.Constant)]
             if "value" in ks and "demand" in ks:
-                test_keys, test_name = set(ks), nm
+                test_keys, test_name, test_is_function = set(ks), nm, is_fn
     r4 = "O16.4"
     chk.count()
     if test_keys is None:
@@ -229,7 +241,7 @@ def logger_rules(chk):
                     if not fm:
                         chk.bad(r5, init.qual, "a Logger can be constructed without its template being test-formatted (condition: %s)" % "; ".join(show(e[1]) for e in o.path.events if e[0] == "branch" and e[4] == "forked"), node=init.node, stmt="no-validation")
                         ok5 = False
-                    elif test_name and fm[0][1] != ("glob", "%s:%s" % (mod.name, test_name)):
+                    elif test_name and (strip_sites(fm[0][1]) != ("call", ("glob", "%s:%s" % (mod.name, test_name)), (), ()) if test_is_function else fm[0][1] != ("glob", "%s:%s" % (mod.name, test_name))):
                         chk.bad(r5, init.qual, "the template is test-formatted against %s, not the validation field mapping" % show(fm[0][1]), node=init.node, stmt="validation-mapping")
                         ok5 = False
                     st = {e[1][2]: e[2] for e in o.path.events if e[0] == "store" and e[1][1] == SELF}
